@@ -202,7 +202,7 @@ def genPackage (s : Schema) : Package :=
       | _ => none
     else none
   let typingClasses := s.types.filterMap fun t =>
-    if operationTypes.contains t.name || t.name.startsWith "__" then none
+    if operationTypes.contains t.name || "__".toList.isPrefixOf t.name.toList then none
     else
       match t.kind with
       | .object | .interface => some { name := t.name ++ "GraphQLField", accessors := [], hasFields := false, hasOn := false, hasAlias := true : ClassDef }
